@@ -485,11 +485,17 @@ func (af *AdaptationField) SetHasTransportPrivateData(value bool) error {
 		return err
 	}
 	delta := 1 * af.bitDelta(5, 0x02, value)
+	if delta < 0 {
+		// remove the length byte together with the data it announces
+		delta = -af.transportPrivateDataLength()
+	}
 	err := af.resizeAF(af.transportPrivateDataStart(), delta)
 	if err != nil {
 		return err
 	}
-	af[af.transportPrivateDataStart()] = 0 // zero length by default
+	if delta > 0 {
+		af[af.transportPrivateDataStart()] = 0 // zero length by default
+	}
 	af.setBit(5, 0x02, value)
 	return nil
 }
@@ -543,11 +549,17 @@ func (af *AdaptationField) SetHasAdaptationFieldExtension(value bool) error {
 		return err
 	}
 	delta := 1 * af.bitDelta(5, 0x01, value)
+	if delta < 0 {
+		// remove the length byte together with the data it announces
+		delta = -af.adaptationExtensionLength()
+	}
 	err := af.resizeAF(af.adaptationExtensionStart(), delta)
 	if err != nil {
 		return err
 	}
-	af[af.adaptationExtensionStart()] = 0
+	if delta > 0 {
+		af[af.adaptationExtensionStart()] = 0 // zero length by default
+	}
 	af.setBit(5, 0x01, value)
 	return nil
 }
